@@ -2145,6 +2145,18 @@ class Association(threading.Thread):
             if isinstance(rsp, C_STORE):
                 # Received a C-STORE request from the peer
                 # Should occur during C-GET and may occur during C-MOVE
+                if cx_id not in self._accepted_cx:
+                    # Same reaction as for any other request on a presentation
+                    #   context that wasn't accepted
+                    LOGGER.error(
+                        "Received C-STORE request with invalid or rejected "
+                        f"context ID: {cx_id}"
+                    )
+                    self.abort()
+                    self._reactor_checkpoint.set()
+                    yield Dataset(), None
+                    return
+
                 self._c_store_scp(rsp)
                 continue
 
